@@ -56,14 +56,23 @@ class BAMOnlineMerger:
         self.start = start
         self.end = end
         # fetch uses 0-based semi-closed interval
-        self.alignment_iterators = [bp[0].fetch(self.chr_id, self.start, self.end + 1,
-                                                multiple_iterators=self.multiple_iterators) for bp in self.bam_pairs]
+        self.alignment_iterators = [self._aligned_only(bp[0].fetch(self.chr_id, self.start, self.end + 1,
+                                                                   multiple_iterators=self.multiple_iterators))
+                                    for bp in self.bam_pairs]
         self.current_elements = PriorityQueue(len(self.alignment_iterators))
         for i, it in enumerate(self.alignment_iterators):
             try:
                 self.current_elements.put_nowait(make_alignment_tuple(i, next(it)))
             except StopIteration:
                 pass
+
+    @staticmethod
+    def _aligned_only(alignment_iterator):
+        # an unmapped record may carry the position of its mate or of a clipped-away alignment ("placed" unmapped read),
+        # it is then returned by fetch() although it has no alignment
+        for alignment in alignment_iterator:
+            if not alignment.is_unmapped:
+                yield alignment
 
     def get(self):
         while not self.current_elements.empty():
